@@ -2,9 +2,7 @@
 package server
 
 import (
-	"context"
 	"sync"
-	"time"
 
 	"github.com/imoore76/ldlm/lock"
 	cl "github.com/imoore76/ldlm/server/clientlock"
@@ -72,74 +70,9 @@ func (t *verifTracer) ret(id int, method string, ok bool, err error) {
 	t.rec(e)
 }
 
-type verifLockMgr struct {
-	lockManager
-	t *verifTracer
-}
-
-func (d verifLockMgr) Lock(name string, key string, size int32, ctx context.Context) error {
-	id := d.t.inv("lock.Lock", name, key, "")
-	err := d.lockManager.Lock(name, key, size, ctx)
-	d.t.ret(id, "lock.Lock", err == nil, err)
-	return err
-}
-func (d verifLockMgr) TryLock(name string, key string, size int32) (bool, error) {
-	id := d.t.inv("lock.TryLock", name, key, "")
-	ok, err := d.lockManager.TryLock(name, key, size)
-	d.t.ret(id, "lock.TryLock", ok, err)
-	return ok, err
-}
-func (d verifLockMgr) Unlock(name string, key string) (bool, error) {
-	id := d.t.inv("lock.Unlock", name, key, "")
-	ok, err := d.lockManager.Unlock(name, key)
-	d.t.ret(id, "lock.Unlock", ok, err)
-	return ok, err
-}
-
-type verifSessMgr struct {
-	sessionManager
-	t *verifTracer
-}
-
-func (d verifSessMgr) DestroySession(sid string) []cl.Lock {
-	id := d.t.inv("sess.DestroySession", "", "", sid)
-	r := d.sessionManager.DestroySession(sid)
-	d.t.ret(id, "sess.DestroySession", len(r) > 0, nil)
-	return r
-}
-func (d verifSessMgr) AddLock(name string, key string, size int32, sid string) {
-	id := d.t.inv("sess.AddLock", name, key, sid)
-	d.sessionManager.AddLock(name, key, size, sid)
-	d.t.ret(id, "sess.AddLock", true, nil)
-}
-func (d verifSessMgr) RemoveLock(name string, key string, sid string) {
-	id := d.t.inv("sess.RemoveLock", name, key, sid)
-	d.sessionManager.RemoveLock(name, key, sid)
-	d.t.ret(id, "sess.RemoveLock", true, nil)
-}
-
-type verifTimerMgr struct {
-	timerManager
-	t *verifTracer
-}
-
-func (d verifTimerMgr) Add(key string, onTimeout func(), dur time.Duration) {
-	id := d.t.inv("timer.Add", "", key, "")
-	d.timerManager.Add(key, onTimeout, dur)
-	d.t.ret(id, "timer.Add", true, nil)
-}
-func (d verifTimerMgr) Remove(key string) bool {
-	id := d.t.inv("timer.Remove", "", key, "")
-	ok := d.timerManager.Remove(key)
-	d.t.ret(id, "timer.Remove", ok, nil)
-	return ok
-}
-func (d verifTimerMgr) Reset(key string, dur time.Duration) (bool, error) {
-	id := d.t.inv("timer.Reset", "", key, "")
-	ok, err := d.timerManager.Reset(key, dur)
-	d.t.ret(id, "timer.Reset", ok, err)
-	return ok, err
-}
+// The recording decorators verifLockMgr / verifSessMgr / verifTimerMgr are generated from the interface
+// declarations of the tree under test (tools/gendeco -> server_deco.go), so that a changed method
+// signature does not stop the harness from compiling.
 
 // VerifTrace reports every call into the three managers from now on (invocation and return).
 func (l *LockServer) VerifTrace(rec func(VerifMgrEvent)) {
